@@ -235,6 +235,28 @@ inductive Reachable (c : Cfg) (todos : List (List Op)) (t0 : Int) : State → Pr
   | init : Reachable c todos t0 (init todos t0)
   | step {s s' : State} (m : Move) : Reachable c todos t0 s → step c s m = some s' → Reachable c todos t0 s'
 
+/-! ### sequential specification of one op's result (what "the result a sequential execution would give" means here)
+
+A cache in front of a resolver whose successful answers are `ans name`: a lookup of `n` answers `ans n` (from the
+cache or freshly resolved), or fails — and it may fail only if the resolver call made FOR THAT lookup failed; a delete
+answers nothing. -/
+namespace Spec
+
+def okRet (c : Cfg) (ans : Name → Addrs) : Op → Ret → Prop
+  | .lookup n _, .hit n' e => n' = n ∧ e.addrs = ans n
+  | .lookup n _, .miss n' e => n' = n ∧ e.addrs = ans n
+  | .lookup n sel, .fail n' => n' = n ∧ c.resolver n sel = none
+  | .del n, .deleted n' => n' = n
+  | _, _ => False
+
+/-- `ops` (most recent first) explain the results `rets` (most recent first) one by one -/
+inductive Explained (c : Cfg) (ans : Name → Addrs) : List Op → List Ret → Prop where
+  | nil : Explained c ans [] []
+  | cons {op : Op} {r : Ret} {ops : List Op} {rs : List Ret} :
+      okRet c ans op r → Explained c ans ops rs → Explained c ans (op :: ops) (r :: rs)
+
+end Spec
+
 /-! ### harness-granularity replay (what the driver runs)
 
 A harness move "poke goroutine g" runs g until it blocks in the resolver or returns:
